@@ -501,12 +501,18 @@ func (bc *BlockChain) insert(block *types.Block) {
 	// If the block is on a side chain or an unknown one, force other heads onto it too
 	updateHeads := GetCanonicalHash(bc.db, block.NumberU64()) != block.Hash()
 
-	// Add the block to the canonical chain number scheme and mark as the head
-	if err := WriteCanonicalHash(bc.db, block.Hash(), block.NumberU64()); err != nil {
+	// Add the block to the canonical chain number scheme and mark as the head.
+	// Both go to disk in one atomic write: a crash between them would leave a
+	// head whose height maps to another block (or the reverse).
+	batch := bc.db.NewBatch()
+	if err := WriteCanonicalHash(batch, block.Hash(), block.NumberU64()); err != nil {
 		log.Crit("Failed to insert block number", "err", err)
 	}
-	if err := WriteHeadBlockHash(bc.db, block.Hash()); err != nil {
+	if err := WriteHeadBlockHash(batch, block.Hash()); err != nil {
 		log.Crit("Failed to insert head block hash", "err", err)
+	}
+	if err := batch.Write(); err != nil {
+		log.Crit("Failed to insert head block", "err", err)
 	}
 	bc.currentBlock.Store(block)
 
